@@ -76,6 +76,37 @@ Theorem eq_by_extent_unsound_unreadable :
   exists n c, in_file "" n = false /\ String.eqb (node_text "" n) c = true /\ eq_by_extent "" n c = false.
 Proof. exists {| tn_from := 40; tn_to := 49; tn_printed := "g(1, 2)" |}, "g(1, 2)". repeat split. Qed.
 
+(* the END of an extent is exclusive: a capture whose last byte is the last byte of the file (a file that does not end in a
+   newline) has tn_to = length of the file and is still sliced -- its Text is the source spelling, not the printed one *)
+Theorem node_text_is_source_up_to_eof file n :
+  (tn_from n < String.length file)%nat -> (tn_from n <= tn_to n)%nat -> (tn_to n <= String.length file)%nat ->
+  node_text file n = substring (tn_from n) (extent n) file.
+Proof.
+  intros H1 H2 H3. unfold node_text, in_file.
+  apply Nat.ltb_lt in H1. apply Nat.leb_le in H2, H3. now rewrite H1, H2, H3.
+Qed.
+
+(* testing both ends with the test that suits the start (`0 <= off < len(src)`) turns exactly those captures over to the printer *)
+Definition in_file_both_ends_exclusive (file : string) (n : tnode) : bool :=
+  (tn_from n <? String.length file)%nat && (tn_to n <? String.length file)%nat && (tn_from n <=? tn_to n)%nat.
+
+Theorem both_ends_exclusive_differs_exactly_at_eof file n :
+  in_file file n = true ->
+  (in_file_both_ends_exclusive file n = false <-> tn_to n = String.length file).
+Proof.
+  unfold in_file, in_file_both_ends_exclusive. intros H.
+  apply andb_prop in H. destruct H as [H H3]. apply andb_prop in H. destruct H as [H1 H2].
+  rewrite H1, H2. cbn [andb]. rewrite andb_true_r. apply Nat.leb_le in H3.
+  split; intros E.
+  - apply Nat.ltb_ge in E. lia.
+  - apply Nat.ltb_ge. lia.
+Qed.
+
+Theorem both_ends_exclusive_refuted :
+  exists file n c, in_file file n = true /\ String.eqb (node_text file n) c = true
+    /\ String.eqb (if in_file_both_ends_exclusive file n then substring (tn_from n) (extent n) file else tn_printed n) c = false.
+Proof. exists "x = a+b", {| tn_from := 4; tn_to := 7; tn_printed := "a + b" |}, "a+b". repeat split. Qed.
+
 (* the Text comparisons of [eval] over an environment whose texts are [node_text] *)
 Definition text_env (file : string) (nodes : string -> tnode) (E : menv) : menv :=
   {| m_int := m_int E; m_str := fun _ x => Ok (Known (node_text file (nodes x))); m_atom := m_atom E |}.
